@@ -106,13 +106,16 @@ def hk_from_R(system, k):
     return 0.5 * (H + H.conj().T)
 
 
-def make_point_degenerate(system, k0, mult):
+def make_point_degenerate(system, k0, mult, levels=None):
     """add a Hermitian on-site term so that H(k0) has multiplets of the sizes `mult` (bottom to top),
-    placed on well separated levels; H(-R)=H(R)^+ is preserved (only R=0 changes, by a Hermitian matrix)"""
+    placed on well separated levels (or on the given `levels`, one per multiplet); H(-R)=H(R)^+ is preserved
+    (only R=0 changes, by a Hermitian matrix)"""
     assert sum(mult) == system.num_wann
     H = hk_from_R(system, k0)
     E, U = np.linalg.eigh(H)
-    E2 = np.concatenate([np.full(m, -1.5 + 1.3 * j) for j, m in enumerate(mult)])
+    if levels is None:
+        levels = [-1.5 + 1.3 * j for j in range(len(mult))]
+    E2 = np.concatenate([np.full(m, float(levels[j])) for j, m in enumerate(mult)])
     system.get_R_mat("Ham")[system.rvec.iR0] += (U * (E2 - E)[None, :]).dot(U.conj().T)
     return system
 
@@ -158,7 +161,7 @@ def build_system(spec, seed):
     if spec.get("double"):
         s.double_spin()
     if spec.get("pointdeg"):
-        make_point_degenerate(s, spec["pointdeg"]["k"], spec["pointdeg"]["mult"])
+        make_point_degenerate(s, spec["pointdeg"]["k"], spec["pointdeg"]["mult"], spec["pointdeg"].get("levels"))
     return s
 
 
